@@ -169,6 +169,18 @@ CHECKS.update(
     }
 )
 
+CHECKS.update(
+    {
+        "C06": (
+            "Hypothesis-generated prior portfolios, targets, cash fractions and cost models; Rebalance / RebalanceOverTime outcome vs target-weight oracle",
+            "Generated prior portfolios (long/short, multipliers, optional funded sub-strategy with holdings), price moves, target vectors, cash fractions, integer or fractional positions and "
+            "cost models; after Rebalance the weights/values/cash fraction are compared with the stated targets; RebalanceOverTime is driven step by step against the expected gap schedule.",
+            "Costs entering the slack are all costs of the rebalance (fees + spread); exact relations only for fractional cost-free runs.",
+            "5/C06",
+        ),
+    }
+)
+
 NOT_YET = {}
 
 ALL = ["C%02d" % i for i in range(1, 21)]
